@@ -5,7 +5,7 @@ from .state import State, Unsupported, Ev
 from .spec import SpecError
 from .ir import short, MOD
 
-TRACE_BUILTINS = {"notafter", "never", "count", "any", "all", "seq", "before", "untouched", "ret", "arg", "called", "last",
+TRACE_BUILTINS = {"ret_last", "ncalls", "notafter", "never", "count", "any", "all", "seq", "before", "untouched", "ret", "arg", "called", "last",
                   "calls", "only", "first", "spawned", "nth", "after_all"}
 
 
@@ -539,6 +539,13 @@ class SpecCtx:
             if n == "min":
                 x, y = to_int(self.eval(args[0])), to_int(self.eval(args[1]))
                 return z3.If(x < y, x, y)
+            if n == "backoffAttempts":
+                from .models import _bk_key
+                pv = self.eval(args[0])
+                k = _bk_key(st, pv)
+                if k not in st.ghost:
+                    st.ghost[k] = z3.IntVal(0) if isinstance(pv.cell, int) else z3.Const(fresh_name("attempt0"), z3.IntSort())
+                return st.ghost[k]
             if n == "holds":
                 # holds(x.tok) / holds(tok) inside a type clause (self.tok)
                 a0 = args[0]
@@ -781,6 +788,30 @@ class SpecCtx:
                 if match_name(names_b, e.name) and not seen_a:
                     ok = False
             return z3.BoolVal(ok)
+        if n == "ret_last":
+            evs = self.events(args[0])
+            if not evs:
+                if not self.st.feasible():
+                    raise UnreachableCtx()
+                raise SpecError("ret_last(%s): no such call on this path" % self.flat(args[0]))
+            e = evs[-1]
+            v = e.results[args[1][1]]
+            sg = self.eng.sig_of(e.name)
+            if sg is not None and args[1][1] < len(sg[1]):
+                self.tag(v, sg[1][args[1][1]])
+            return v
+        if n == "ncalls":
+            # symbolic call counter (survives loop cuts, unlike calls() which counts the entries of this path's trace)
+            pat = self.flat(args[0])
+            tot = z3.IntVal(0)
+            for k, v in st.ghost.items():
+                if isinstance(k, tuple) and k[0] == "ncalls" and match_name(pat, k[1]):
+                    tot = tot + v
+            # callees that may be called inside a cut loop but were not called before it
+            for nm in st.ghost.get("loop_callees", ()):
+                if match_name(pat, nm) and ("ncalls", nm) not in st.ghost:
+                    pass
+            return z3.simplify(tot)
         if n == "notafter":
             # notafter(A, B): no A entry occurs after a B entry
             na, nb = self.flat(args[0]), self.flat(args[1])
